@@ -53,6 +53,8 @@ type Step struct {
 	// resp = only the response is computed from the wrong value, both = both.
 	Mode    string `json:"mode,omitempty"`
 	Variant int    `json:"variant,omitempty"`
+	// Preempt: valid Basic credentials sent before any challenge on the connection.
+	Preempt bool `json:"preempt,omitempty"`
 }
 
 // Scenario is one C10 run.
@@ -66,6 +68,9 @@ type Scenario struct {
 	URL     string        `json:"url"` // stream URL without credentials
 	Medias  int           `json:"medias"`
 	Record  bool          `json:"record"`
+	// DescribeOnly: the conversation stops after DESCRIBE (URLs with an empty path: the
+	// authentication decision is checked, what the server does with such a path is not).
+	DescribeOnly bool `json:"describe_only,omitempty"`
 	// A: the client uses a wrong user / pass ("" = right credentials)
 	Wrong string `json:"wrong,omitempty"`
 	// B: the challenge
@@ -79,7 +84,7 @@ var probeNames = []string{
 	"method_basic", "method_digest_md5", "method_digest_sha256", "password_with_colon", "setup_track_url",
 	"perturb_user", "perturb_pass", "perturb_realm", "perturb_nonce", "perturb_method", "perturb_algorithm", "perturb_uri",
 	"perturb_scheme_not_enabled", "perturb_response", "conn_kept_after_challenge", "conn_closed_after_wrong_credentials",
-	"workload_a", "workload_b", "workload_c", "record_flow", "client_wrong_credentials_rejected",
+	"workload_a", "workload_b", "workload_c", "preemptive_basic", "empty_path_url", "record_flow", "client_wrong_credentials_rejected",
 	"challenge_checked", "valid_accepted", "setup_base_url_form_accepted", "setup_base_url_form_rejected",
 	"uri_abs_path_form_accepted", "uri_abs_path_form_rejected", "nonce_of_other_connection", "algorithm_absent_md5",
 	"url_with_query", "url_with_escapes", "url_at_then_percent", "unicode_credentials",
